@@ -712,6 +712,39 @@ pub fn c14_durations(m: &mut DM, g: &DurGen, rng: &mut Rng, thorough: bool) {
         let r = catch(|| a.approx());
         m.rec.ev("x_approx", format!("\"res\":{}", jres_dur(&r)), true);
     }
+    // approx() at the ties: (k + 1/2) units of the largest component, both signs, and one nanosecond either side
+    for unit_ns in [1_000i128, 1_000_000, 1_000_000_000, 60_000_000_000, 3_600_000_000_000, 86_400_000_000_000] {
+        for k in [1i128, 2, 7, 10, 23] {
+            for sign in [1i128, -1] {
+                for dn in [-1i128, 0, 1] {
+                    let v = sign * (k * unit_ns + unit_ns / 2) + dn;
+                    let (c, n) = safe(|| Duration::from_total_nanoseconds(v)).to_parts();
+                    m.load(c, n);
+                    let a = m.d;
+                    let r = catch(|| a.approx());
+                    m.rec.ev("x_approx", format!("\"res\":{}", jres_dur(&r)), true);
+                }
+            }
+        }
+    }
+    // floor / ceil / round at the half-way points (k + 1/2) |s| and one nanosecond either side, both signs
+    for s in &steps {
+        let (sc, sn) = s.to_parts();
+        let st = ((sc as i128) * NPC as i128 + sn as i128).abs();
+        let half = st / 2;
+        if half == 0 {
+            continue;
+        }
+        for k in [-3i128, -2, -1, 0, 1, 2, 1000] {
+            for dn in [-1i128, 0, 1] {
+                let (c, n) = safe(|| Duration::from_total_nanoseconds(k * st + half + dn)).to_parts();
+                for w in 0..3u8 {
+                    m.load(c, n);
+                    m.snap(w, *s);
+                }
+            }
+        }
+    }
     // values at multiples of the step +/- 1 ns, both signs
     for s in &steps {
         for k in [-3i64, -2, -1, 0, 1, 2, 3, 1000, -1000] {
